@@ -406,6 +406,14 @@ def run(out, tier, seed, proof):
     n = 60 if tier == "quick" else 800
     base = tempfile.mkdtemp(prefix="verifeng_C18_")
     cases = [gen_history(rng, i, base) for i in range(n)]
+    # F25 regression: two generators over one pattern in one module, one of them raising after it created tasks
+    for first in ("raise_after", "raise_before"):
+        ts = [tk(1, deps=[101], pprods=[1], clears=True), tk(4, pdeps=[1], is_gen=True), tk(5, pdeps=[1], is_gen=True, two_stage=True)]
+        cases.append({"idx": len(cases), "root": str(Path(base) / f"c{len(cases)}" / "p"), "sources": [101, 102],
+                      "ops": [{"op": "set", "n": 101, "c": 6}, {"op": "set", "n": 102, "c": 7},
+                              {"op": "build", "tasks": ts, "cfg": dict(PLAIN), "faults": {"4": first}},
+                              {"op": "build", "tasks": ts, "cfg": dict(PLAIN), "faults": {"5": first}},
+                              {"op": "build", "tasks": ts, "cfg": dict(PLAIN), "faults": {}}]})
     nb, nh = run_phistories(out, cases, seed, "C18", [o_c18, o_selection, o_once, o_order])
     run_id_scenarios(out, rng, 4 if tier == "quick" else 40)
     out.coverage["builds_compared"] = nb
